@@ -427,7 +427,7 @@ PROPS = {
     'C06': {
         'lean_targets': ['Cqos.Props.C06', 'Cqos.Props.C16', 'Cqos.Facts.GluePrioV2', 'Cqos.Props.C06d', 'Cqos.Props.C06i', 'Cqos.Props.C06v', 'Cqos.Props.C06e', 'Cqos.Props.C06f', 'Cqos.Props.C06s'],
         'facts': True,
-        'theorems': ['Cqos.C06.c06_idle_delivers_v1_calc', 'Cqos.C06.c06_idle_delivers_v1', 'Cqos.C06.c06_calc_idle', 'Cqos.C06.calc_wait_busy', 'Cqos.C06.w_step', 'Cqos.C06.c06_never_waits_idle',
+        'theorems': ['Cqos.C06.c06_idle_delivers_v1_calc', 'Cqos.C06.c06_idle_delivers_v1', 'Cqos.C06.sumRule_lowfirst', 'Cqos.C06.c06_calc_idle', 'Cqos.C06.calc_wait_busy', 'Cqos.C06.w_step', 'Cqos.C06.c06_never_waits_idle',
                      'Cqos.C06.c06_head_served', 'Cqos.C06.c06_recalc_alone', 'Cqos.C06.c06_v1_zero_share_starves',
                      'Cqos.C15.c15_drain_progress', 'Cqos.C16.c16_exit_bound', 'Cqos.Facts.gluePrioV2', 'Cqos.C06.poll_enabled', 'Cqos.C06.c06_no_deadlock',
                      'Cqos.C06.skip_one', 'Cqos.C06.c06_phase1_delivers', 'Cqos.C06.v2_inputs_own_chan', 'Cqos.C06.c06_idle_delivers',
